@@ -96,7 +96,9 @@ def corresponding_codes(failed):
 # ---------------------------------------------------------------------------
 # placements: each returns (spec, how to find the target row)
 # ---------------------------------------------------------------------------
-PLACEMENTS = ('value', 'value_dyn', 'value_long', 'descriptor', 'alone', 'first', 'middle', 'last', 'group')
+# value_np / value_ro: a characteristic whose declared PROPERTIES do not advertise the operation (notify-only / read-only):
+# the properties octet is advice for the peer, the permissions decide
+PLACEMENTS = ('value', 'value_dyn', 'value_long', 'descriptor', 'alone', 'first', 'middle', 'last', 'group', 'value_np', 'value_ro')
 
 
 def hexv(b):
@@ -108,6 +110,8 @@ def placement_spec(pl, perms):
     if pl in ('value', 'value_dyn', 'value_long'):
         val = hexv(SECRET7) if pl == 'value' else hexv(SECRET_LONG) if pl == 'value_long' else ['dyn', 'rw', 0, 0]
         return [['svc', 'A000', True, [pub(0), ['A001', P_R | P_W | P_WNR, perms, val, []], pub(2)]]]
+    if pl in ('value_np', 'value_ro'):
+        return [['svc', 'A000', True, [pub(0), ['A001', P_N if pl == 'value_np' else P_R, perms, hexv(SECRET7), []], pub(2)]]]
     if pl == 'descriptor':
         return [['svc', 'A000', True, [pub(0), ['A0F1', P_R | P_W, RWP, hexv(PUB[1]), [['A0D1', perms, hexv(SECRET7)]]], pub(2)]]]
     if pl == 'alone':
